@@ -278,6 +278,11 @@ impl<'v> Array<'v> {
 
     pub(crate) fn clear(&self) {
         debug_assert!(!self.iter_count_is_non_zero());
+        if self.is_statically_allocated() {
+            // The shared static empty array is already empty, and it must never be written:
+            // several threads may use it at once.
+            return;
+        }
         unsafe {
             *self.len.get() = 0;
         }
